@@ -70,14 +70,20 @@ def plus : Obj K → Obj K → Obj K
 
 /-- `__rmul__`: `c * A` -/
 def rmul (c : Scal K) (a : Obj K) : Obj K :=
-  match c with
-  | .py v => if v = 0 then zeroOp else if v = 1 then a else prodRight a c
-  | _ => prodRight a c
+  match a with
+  | zeroOp => zeroOp               -- `ZeroOp.__rmul__`: c * 0 = 0
+  | a =>
+    match c with
+    | .py v => if v = 0 then zeroOp else if v = 1 then a else prodRight a c
+    | _ => prodRight a c
 /-- `__mul__`: `A * c` -/
 def mul (a : Obj K) (c : Scal K) : Obj K :=
-  match c with
-  | .py v => if v = 0 then zeroOp else if v = 1 then a else prodLeft a c
-  | _ => prodLeft a c
+  match a with
+  | zeroOp => zeroOp               -- `ZeroOp.__mul__`: 0 * c = 0
+  | a =>
+    match c with
+    | .py v => if v = 0 then zeroOp else if v = 1 then a else prodLeft a c
+    | _ => prodLeft a c
 
 /-- `__add__` with a tensor: `LinearOperatorSum(self, IdentityOp() * other)` (no ZeroOp shortcut) -/
 def plusT (a : Obj K) (d : Scal K) : Obj K := mkSum a (mul identity d)
@@ -85,6 +91,7 @@ def plusT (a : Obj K) (d : Scal K) : Obj K := mkSum a (mul identity d)
 /-- `.H` -/
 def H : Obj K → Obj K
   | adjointOf a => a
+  | zeroOp => zeroOp               -- `ZeroOp.H`
   | a => adjointOf a
 
 /-- `.gram` with the class-specific rules -/
